@@ -96,6 +96,11 @@ def rand_ui(rng, ty):
         ui["label"] = "L"
     if rng.random() < 0.2:
         ui["groupLabel"] = "G"
+    if ui["control"] in ("CHOOSE_INPUT_FILE", "CHOOSE_OUTPUT_FILE") and rng.random() < 0.6:
+        if rng.random() < 0.7:
+            ui["fileFilters"] = [{"label": "Text", "patterns": ["*.txt", "*.md"]}]
+        if rng.random() < 0.5:
+            ui["fileFilterDefault"] = {"label": "All", "patterns": ["*.*"]}
     return ui
 
 
